@@ -314,10 +314,27 @@ Theorem monitor_conc_is_counts_then_success : forall inp obs,
 Proof. exact mon_conc_split. Qed.
 Print Assumptions monitor_conc_is_counts_then_success.
 
+(** Hypothesis-free form: [run_conc] is the agreement test [judge_conc] uses. *)
+Theorem monitor_counts_silent_whenever_run_conc_accepts : forall inp obs,
+  fst (run_conc inp obs) = true -> mon_conc_counts inp obs = [].
+Proof. exact conc_counts_silent_run_conc. Qed.
+Print Assumptions monitor_counts_silent_whenever_run_conc_accepts.
+
+(** The same through [judge17]'s agreement bit ("kind = 2" only selects the
+    branch of [judge17] in which that bit is [run_conc]'s). *)
 Theorem monitor_silent_on_agreeing_observation_concurrent_counts : forall inp obs,
   sx_Z (sx_nth inp 0) = 2 -> agree17 inp obs = true -> mon_conc_counts inp obs = [].
 Proof. exact conc_counts_silent_on_agreeing. Qed.
 Print Assumptions monitor_silent_on_agreeing_observation_concurrent_counts.
+
+(** The agreement test for kind 2 is a function of obs[0..3] (statuses per
+    round, maxima, sink contents): the event log obs[4], on which the clauses
+    24/25 are evaluated, is not constrained by it. *)
+Theorem judge_agreement_ignores_event_log : forall inp o0 o1 o2 o3 lg lg',
+  sx_Z (sx_nth inp 0) = 2 ->
+  agree17 inp (L [o0; o1; o2; o3; lg]) = agree17 inp (L [o0; o1; o2; o3; lg']).
+Proof. exact agreement_ignores_log. Qed.
+Print Assumptions judge_agreement_ignores_event_log.
 
 (** The bound behind it, for every trace of the transition system. *)
 Theorem reported_maxima_bounded : forall m sets source sink tr s,
@@ -345,8 +362,16 @@ Example monitor_domain_boundary :
    let obs := L [L []; A 0; A 0; L []; L [L [A 0; A 0; A 0]; L [A 3; A 0; A 0; A 0]]] in
    agree17 inp obs = true /\ mon17 inp obs = [24] /\ mon_conc_counts inp obs = [])
   /\ (let inp := L [A 1; A 0; A 5; L [L [A 3; A 0]; L [A 0; L [A 0]; A 0; A 0; A 0]]] in
-      run17 inp = L [A (-1)] /\ mon17 inp (run17 inp) = []).
-Proof. exact (conj conc_success_clauses_not_determined_by_agreement ec_size0_example). Qed.
+      run17 inp = L [A (-1)] /\ mon17 inp (run17 inp) = [])
+  /\ (* [model_output_is_accepted] needs a kind in {0, 1, 3}: an unknown kind is
+        never accepted, and kind 2 has only the placeholder output *)
+     (agree17 (L [A 4]) (run17 (L [A 4])) = false
+      /\ let inp := L [A 2; L [A 0]; L [L [A 0]]; L [A 0]; L []; L [L [A 0; A 0]]] in
+         agree17 inp (run17 inp) = false).
+Proof.
+  refine (conj conc_success_clauses_not_determined_by_agreement (conj ec_size0_example _)).
+  vm_compute. split; reflexivity.
+Qed.
 
 (** Non-vacuity for kind 2: two callers of the deduplicating replicator for
     the same object, the second waits while the first copies; the judge
